@@ -12,6 +12,11 @@
                                    DQ:<rid> DQF:<rid> DR:<rid>:<addr>:<hex> DRF:<rid>:<addr> DW:<rid>:<addr> DWF:<rid>:<addr>)
   treset <id> | tdisc | tread <tag> <start> <size> <cb> | twrite <tag> <start> <size> <cb> | tpkt <chan> <hex>
                                    the MemoryTester client (replies carry `<tester outs> V<valid>` in addition)
+  creset | cwrite <tag> <id> <addr> <hex> <flush> <progress> | cread <tag> <id> <addr> <len> | csteps <k> | cpkt <chan> <hex> | cend
+                                   the statement-level machine `cexec` (lock discipline `ConcVariant.code`): a call begins,
+                                   the caller executes its next k statements (`<outs> L<lock>`), the incoming thread is
+                                   given a packet (`blocked`: it has to wait / not possible now), the call has returned
+                                   (`T` | `F` | `pending`)
   reply: `<res> <outs> L<lock>`  res = T | F | N | E:<enum> | H ;  outs = `;`-joined or `-`:
          S<chan>:<hex>  RO:<tag>:<id>:<addr>:<hex>  RF:...  WO:<tag>:<id>:<addr>  WF:...  P:<tag>:<pct>
 -/
@@ -55,6 +60,8 @@ structure DSt where
   t : Tester := Tester.new 0
   dv : DeckVariant := DeckVariant.code
   dk : Deck := Deck.new 0
+  cs : CState := ⟨St.init, none⟩
+  cres : String := "T"
 
 def showTOut : TOut → String
   | .updateFinished cb => s!"TU:{cb}"
@@ -176,6 +183,53 @@ def dstep (d : DSt) (ws : List String) : DSt × String :=
       let (t', touts) := testerReact d.t r.outs
       ({ d with st := r.st, t := t' }, showWithTester r t' touts)
     | _, _ => (d, "bad-op")
+  | ["creset"] => ({ d with cs := ⟨St.init, none⟩, cres := "T" }, "ok")
+  | ["cwrite", tag, id, addr, data, flush, prog] =>
+    match tag.toNat?, id.toNat?, addr.toNat?, ofHex? data, parseBool? flush, parseBool? prog with
+    | some t, some i, some a, some da, some f, some p =>
+      match cexec ConcVariant.code d.cs (.begin t i a da f p) with
+      | some (c1, _, _) => ({ d with cs := c1, cres := "T" }, "ok")
+      | none => (d, "busy")
+    | _, _, _, _, _, _ => (d, "bad-op")
+  | ["cread", tag, id, addr, len] =>
+    match tag.toNat?, id.toNat?, addr.toNat?, len.toNat? with
+    | some t, some i, some a, some l =>
+      match cexec ConcVariant.code d.cs (.beginRead t i a l) with
+      | some (c1, _, _) => ({ d with cs := c1, cres := "T" }, "ok")
+      | none => (d, "busy")
+    | _, _, _, _ => (d, "bad-op")
+  | ["csteps", k] =>
+    match k.toNat? with
+    | some n =>
+      let rec go (fuel : Nat) (c : CState) (res : String) (outs : List Out) : Option (CState × String × List Out) :=
+        match fuel with
+        | 0 => some (c, res, outs)
+        | fuel + 1 =>
+          -- `return False` is the one way a call ends after the first statement of a read
+          let rejects := match c.call with
+            | some (.r k) => k.pc == 0 && dhas c.s.reads k.id
+            | _ => false
+          match cexec ConcVariant.code c .stepCall with
+          | none => none
+          | some (c1, o1, _) => go fuel c1 (if rejects then "F" else res) (outs ++ o1)
+      match go n d.cs d.cres [] with
+      | none => (d, "blocked")
+      | some (c1, res, outs) =>
+        let os := if outs.isEmpty then "-" else ";".intercalate (outs.map showOut)
+        ({ d with cs := c1, cres := res }, s!"{os} L{if c1.s.lock then 1 else 0}")
+    | none => (d, "bad-op")
+  | ["cpkt", chan, data] =>
+    match chan.toNat?, ofHex? data with
+    | some c, some da =>
+      if c == Gen.C06.chanInfo || c > 3 then (d, "bad-op") else
+      match cexec ConcVariant.code d.cs (.env (.pkt c da)) with
+      | none => (d, "blocked")
+      | some (c1, _, _) => ({ d with cs := c1 }, showStep (step Variant.fixed d.cs.s (.pkt c da)))
+    | _, _ => (d, "bad-op")
+  | ["cend"] =>
+    match d.cs.call with
+    | none => (d, d.cres)
+    | some _ => (d, "pending")
   | _ => (d, "bad-op")
 
 def main : IO Unit := runProto ({} : DSt) dstep
